@@ -1,6 +1,7 @@
 package main
 
 import (
+	"fmt"
 	"go/types"
 	"strings"
 
@@ -151,7 +152,7 @@ func (eng *Engine) directEffects(fn *ssa.Function) (map[string]bool, map[string]
 			case *ssa.Alloc, *ssa.MakeSlice, *ssa.MakeMap:
 				vc.instrEffects(in, fresh, 99)
 			case *ssa.Store:
-				if isAllocBased(x.Addr) {
+				if isAllocBased(x.Addr) || eng.freshBase(x.Addr, 0) {
 					vc.instrEffects(in, fresh, 99)
 				} else if vc.instrEffects(in, vars, 99) {
 					all = true
@@ -171,6 +172,9 @@ func (eng *Engine) directEffects(fn *ssa.Function) (map[string]bool, map[string]
 	}
 	// anonymous functions created here run when called; their effects are
 	// accounted for at their call sites (dynamic calls are "all")
+	if len(vars) > 0 {
+		effWhy[fn] += " direct-writes:" + strings.Join(sortedKeys(vars), ",")
+	}
 	return vars, fresh, callees, all
 }
 
@@ -376,4 +380,77 @@ func (eng *Engine) implementations(iface *types.Named, m *types.Func) []*ssa.Fun
 		}
 	}
 	return out
+}
+
+// freshBase: the object a store writes to was allocated during the current
+// call — directly, or by a callee that returns only objects it allocated.
+func (eng *Engine) freshBase(addr ssa.Value, depth int) bool {
+	if depth > 6 {
+		return false
+	}
+	switch x := addr.(type) {
+	case *ssa.Alloc:
+		return true
+	case *ssa.FieldAddr:
+		return eng.freshBase(x.X, depth+1)
+	case *ssa.IndexAddr:
+		return eng.freshBase(x.X, depth+1)
+	case *ssa.MakeSlice, *ssa.MakeMap:
+		return true
+	case *ssa.Slice:
+		return eng.freshBase(x.X, depth+1)
+	case *ssa.Phi:
+		for _, e := range x.Edges {
+			if e == ssa.Value(x) {
+				continue
+			}
+			if !eng.freshBase(e, depth+1) {
+				return false
+			}
+		}
+		return len(x.Edges) > 0
+	case *ssa.Call:
+		c := x.Call.StaticCallee()
+		return c != nil && eng.returnsFresh(c)
+	case *ssa.Extract:
+		if call, ok := x.Tuple.(*ssa.Call); ok {
+			c := call.Call.StaticCallee()
+			return c != nil && eng.returnsFreshAt(c, x.Index)
+		}
+	}
+	return false
+}
+
+func (eng *Engine) returnsFresh(fn *ssa.Function) bool { return eng.returnsFreshAt(fn, 0) }
+
+// returnsFreshAt: every value returned at result index idx is an object
+// allocated by fn (or by a callee with the same property).
+func (eng *Engine) returnsFreshAt(fn *ssa.Function, idx int) bool {
+	key := fmt.Sprintf("%p#%d", fn, idx)
+	if v, ok := eng.freshMemo[key]; ok {
+		return v
+	}
+	if eng.freshMemo == nil {
+		eng.freshMemo = map[string]bool{}
+	}
+	eng.freshMemo[key] = false // cycles: not fresh
+	if !isRepoFunc(fn) || len(fn.Blocks) == 0 {
+		return false
+	}
+	ok := true
+	n := 0
+	for _, b := range fn.Blocks {
+		for _, in := range b.Instrs {
+			r, isRet := in.(*ssa.Return)
+			if !isRet || idx >= len(r.Results) {
+				continue
+			}
+			n++
+			if !eng.freshBase(r.Results[idx], 1) {
+				ok = false
+			}
+		}
+	}
+	eng.freshMemo[key] = ok && n > 0
+	return ok && n > 0
 }
